@@ -101,7 +101,7 @@ pub fn run(rep: &mut Report, tier: &str, seed: u64) {
     let n_programs = if tier == "thorough" { 2500 } else { 160 };
     let mut runner = Runner::new("C03");
     campaign(rep, &mut runner, seed, n_programs, 3, false,
-        &|_pi, r| Opts { fragment: true, fault_pct: 0, max_stanzas: 6, allow_print: false, universal: r.chance(1, 4), probe: true, scoped_heavy: false, keywordish_names: false },
+        &|_pi, r| Opts { fragment: true, fault_pct: 0, max_stanzas: 6, allow_print: false, universal: r.chance(1, 4), probe: true, scoped_heavy: false, keywordish_names: false, static_fault: 0 },
         &mut |rep, runner, case, r, pi| {
             let globals = crate::props::common::supply_globals(r, &case.loaded.program);
             for lazy in [false, true] {
